@@ -204,6 +204,11 @@ def c06_3(ctx):
         if clause_implies(cl, lit_cmp(ctx, sl, f'{lab} in self._labels', res)):
             dup = True
     ctx.check(dup, 'set:duplicate-rejected', sl.site(), 'a name defined twice in one scope is rejected', 'no exit under `label in self._labels`')
+    # completing normally means: stored here, or handed to the parent - there is no third way out (e.g. "already there, fine")
+    via = {g.node_of(n) for n in ins} | {g.node_of(c) for c in ast.walk(sl.node) if isinstance(c, ast.Call) and unparse(c.func) == 'self.parent.set_label_value'}
+    ctx.check(g.all_paths_through(g.entry, g.exit, via), 'set:no-silent-exit', sl.site(),
+              'every call that returns normally has stored the label in this scope or passed it to the parent scope',
+              'some path returns without storing or delegating: a second definition can be accepted silently')
     up = [c for c in ast.walk(sl.node) if isinstance(c, ast.Call) and unparse(c.func) == 'self.parent.set_label_value']
     ok = len(up) == 1
     if ok:
@@ -465,12 +470,19 @@ def c06_9(ctx):
     ctx.check(len(rr) == 1 and unparse(rr[0].value) == 'self._label', 'label:name', gl.site(), 'get_label returns the parsed label name', '; '.join(unparse(r) for r in rr))
 
 
-RULES = [c06_1, c06_2, c06_3, c06_4, c06_5, c06_6, c06_8, c06_9]
+def c06_state(ctx):
+    """Per-statement / per-lookup properties presuppose that nothing is remembered between statements beyond the reviewed state."""
+    from rules.shared import state_discipline
+    state_discipline(ctx, ('bespokeasm.assembler.label_scope', 'bespokeasm.assembler.assembly_file', 'bespokeasm.assembler.line_object.label_line', 'bespokeasm.assembler.line_object.__init__', 'bespokeasm.assembler.line_object.factory', 'bespokeasm.expression'))
+
+
+RULES = [c06_1, c06_2, c06_3, c06_4, c06_5, c06_6, c06_8, c06_9, c06_state]
 
 _L = 'assembler/label_scope/__init__.py'
 _A = 'assembler/assembly_file.py'
 _LL = 'assembler/line_object/label_line.py'
 MUTANTS = [
+    V('c06-same-value-duplicate-accepted', 'assembler/label_scope/__init__.py', "            else:\n                sys.exit(f\"ERROR: {line_id} - Label '{label}' is defined multiple times at scope {self}\")", "            elif self._labels[label].value == value:\n                return\n            else:\n                sys.exit(f\"ERROR: {line_id} - Label '{label}' is defined multiple times at scope {self}\")", 'C06.3'),
     V('c06-include-parent-file-scope', _A, 'file_obj = AssemblyFile(new_filepath, self.label_scope.parent)', 'file_obj = AssemblyFile(new_filepath, self.label_scope)', 'C06.2'),
     V('c06-duplicate-allowed', _L, "            if label not in self._labels:\n                self._labels[label] = LabelScope.LabelInfo(label, value, line_id)\n            else:\n                sys.exit(f\"ERROR: {line_id} - Label '{label}' is defined multiple times at scope {self}\")",
       "            self._labels[label] = LabelScope.LabelInfo(label, value, line_id)", 'C06.3'),
